@@ -15,7 +15,7 @@ impl Operation for Get {
     const NAME: &'static str = "get";
     const REQUIRED_CAPABILITIES: Requirements = Requirements::None;
 
-    type Builder<'a> = Builder;
+    type Builder<'a> = Builder<'a>;
     type Reply = DataReply<Opaque>;
 }
 
@@ -35,20 +35,21 @@ impl WriteXml for Get {
 
 #[derive(Debug, Clone)]
 #[must_use]
-pub struct Builder {
+pub struct Builder<'a> {
+    ctx: &'a Context,
     filter: Option<Filter>,
 }
 
-impl Builder {
-    pub fn filter(mut self, filter: Option<Filter>) -> Self {
-        self.filter = filter;
-        self
+impl Builder<'_> {
+    pub fn filter(mut self, filter: Option<Filter>) -> Result<Self, Error> {
+        self.filter = filter.map(|filter| filter.try_use(self.ctx)).transpose()?;
+        Ok(self)
     }
 }
 
-impl super::Builder<'_, Get> for Builder {
-    fn new(_: &Context) -> Self {
-        Self { filter: None }
+impl<'a> super::Builder<'a, Get> for Builder<'a> {
+    fn new(ctx: &'a Context) -> Self {
+        Self { ctx, filter: None }
     }
 
     fn finish(self) -> Result<Get, Error> {
